@@ -123,18 +123,68 @@ fn check_layout(t: &mut Tally, scratch: &Path, id: usize, l: &Layout) {
         }
         Ok::<_, String>(seen)
     });
-    let _ = std::fs::remove_dir_all(&root);
+    // (the tree stays until the iterator's other methods have been compared with next())
+    let root2 = root.clone();
     let seen = match got {
         Ok(Ok(s)) => s,
         Ok(Err(e)) => {
+            let _ = std::fs::remove_dir_all(&root);
             t.violation(Violation::new("layout", layout_json(l), json!("iteration succeeds"), json!(e), "opening or iterating the database failed"));
             return;
         }
         Err(m) => {
+            let _ = std::fs::remove_dir_all(&root);
             t.violation(Violation::new("layout", layout_json(l), json!("returns"), json!(format!("panic: {}", m)), "package database iteration panicked"));
             return;
         }
     };
+    let seen_names: Vec<String> = seen.iter().map(|s| s.0.clone()).collect();
+    // the iterator's other methods (count, last, nth, fold, size_hint) see the same packages as next()
+    {
+        let adapters = guard(|| -> Result<Option<String>, String> {
+            let n = seen.len();
+            let open = || PkgDB::open(&root2).map_err(|e| e.to_string());
+            let count = open()?.filter(|p| p.is_ok()).count();
+            let raw_count = open()?.count();
+            let errs = open()?.filter(|p| p.is_err()).count();
+            if count != n || raw_count != n + errs {
+                return Ok(Some(format!("count() = {} (Ok items {}), next() yields {} packages and {} errors", raw_count, count, n, errs)));
+            }
+            let folded = open()?.fold(0usize, |a, p| a + usize::from(p.is_ok()));
+            if folded != n {
+                return Ok(Some(format!("fold counts {} packages, next() yields {}", folded, n)));
+            }
+            let last = open()?.last().and_then(|p| p.ok()).map(|p| p.pkgname().clone());
+            if errs == 0 && last.is_some() != (n > 0) {
+                return Ok(Some(format!("last() = {:?} with {} packages", last, n)));
+            }
+            if let Some(l) = &last {
+                if !seen_names.contains(l) {
+                    return Ok(Some(format!("last() = {:?}, which next() never yields", l)));
+                }
+            }
+            for k in 0..=n {
+                let nth = open()?.filter_map(|p| p.ok()).nth(k).map(|p| p.pkgname().clone());
+                if nth.is_some() != (k < n) || nth.as_ref().map(|x| !seen_names.contains(x)).unwrap_or(false) {
+                    return Ok(Some(format!("nth({}) = {:?} with {} packages", k, nth, n)));
+                }
+            }
+            let (lo, hi) = open()?.size_hint();
+            if lo > n + errs || hi.map(|h| h < n + errs).unwrap_or(false) {
+                return Ok(Some(format!("size_hint = ({}, {:?}) with {} items", lo, hi, n + errs)));
+            }
+            Ok(None)
+        });
+        match adapters {
+            Ok(Ok(None)) => {}
+            other => {
+                t.violation(Violation::new("layout", layout_json(l), json!("count / fold / last / nth / size_hint consistent with next()"), json!(format!("{:?}", other)), "every way of consuming the iterator lists the same packages"));
+                let _ = std::fs::remove_dir_all(&root2);
+                return;
+            }
+        }
+        let _ = std::fs::remove_dir_all(&root2);
+    }
     let mut names: Vec<String> = seen.iter().map(|s| s.0.clone()).collect();
     names.sort();
     let want_names: Vec<String> = want.keys().cloned().collect();
